@@ -260,6 +260,12 @@ int main(int argc, char **argv)
         ascon_random_free(&rs); if (reseeds < 2) hx_fail("prng:reseed-trigger", "long run: only %lu automatic reseeds in 6000 fetches", reseeds);
     }
     hx_sample("PRNG: every history of depth <= %d starting with alphabet entries [%d,%d) over {fetch,feed x sizes 0,1,7,8,9,32,16383,16384,16385; reseed; save; load; free+init} x every subset of failing entropy calls x storage answers", DEPTH, lo, hi);
+    /* device configuration, on request (C16): every descriptor the library opened was closed exactly once -- descriptor numbers are process-wide, a second close hits whoever got the number next */
+    if (getenv("VP_CHECK_DESCRIPTORS") && lo == 0) {
+        if (sysrand_bad_closes) hx_fail("descriptor:closed-twice", "%u close calls on the random-device descriptor after it had already been closed (%u opens, %u closes)", sysrand_bad_closes, sysrand_opens, sysrand_closes);
+        else if (sysrand_opens != sysrand_closes) hx_fail("descriptor:leak", "%u opens of the random device, %u closes", sysrand_opens, sysrand_closes);
+        hx_stat("descriptor_opens", sysrand_opens);
+    }
     hx_finish();
     return 0;
 }
